@@ -7,7 +7,8 @@ Stage A: TLC checks Identity.tla: for every identity kind the four operators ToW
 Stage B: TLC generates the conformance cases from the same case structure (MC_C12_gen); the driver replays every
          function named under observe_at on each case, enumerates all 65 536 set x pointer pairs and all 65 536 text
          tails, and records seeded random identities; thorough: digests of the function tables over all 2^24 AMF ids.
-Stage C: TLC (Trace_C12) evaluates the specification on every logged input and compares with the logged output."""
+Stage C: TLC (Trace_C12) evaluates the specification on every logged input and compares with the logged output.
+Added after seeded rounds 3-5: the octets handed to a rendering function are compared after the call and the same element is rendered twice; one long-lived element per contents length is refilled in place before rendering; history-dependent confirmation."""
 import json, os, sys
 sys.path.insert(0, os.path.dirname(os.path.dirname(os.path.abspath(__file__))))
 from vlib import *
